@@ -5,8 +5,11 @@ Driver for the lock-step registry suites (C07; C09's subscope part).  The harnes
 hook-to-hook transition of a real thread into the model events below; the driver applies them, rejects
 what the model does not allow, and answers which threads can take their next step without blocking.
 Lines:
-  `begin`                                      → ok
-  `ev passBegin <t>` | `ev step <t> <choice>` | `ev passEnd <t>` | `ev obtain <t> <i>` | `ev record <sid>` | `ev close <sid>`
+  `begin`                                      → ok      (identity sanitizer, root scope registered under key 0)
+  `san <k1:v1,k2:v2,…>` | `san -`              → ok | reject not-idempotent | reject not-at-start | bad-op parse
+                                               (only right after `begin`: fixes the sanitizer on keys as a finite map,
+                                               identity elsewhere, and restarts the shard from `initRoot san`)
+  `ev passBegin <t>` | `ev step <t> <choice>` | `ev passEnd <t>` | `ev obtain <t> <rawkey>` | `ev record <sid>` | `ev close <sid>`
                                                → ok | reject <why>
   `expect <t> <pcname>`                        → ok | reject at=<pcname>
   `pending <t> <n>`                            → ok | differ <n'>     (tokens thread t is about to hand to the reporter)
@@ -21,31 +24,50 @@ def pcName : Pc → String
   | .idle => "idle" | .passIter _ => "passIter" | .passSwap .. => "passSwap" | .passDeliver .. => "passDeliver"
   | .passAfter .. => "passAfter" | .passUnlocked .. => "passUnlocked" | .passRelock .. => "passRelock"
   | .passClear .. => "passClear" | .obtProbe _ => "obtProbe" | .obtSwap .. => "obtSwap" | .obtDeliver .. => "obtDeliver"
-  | .obtAfter .. => "obtAfter" | .obtUnlocked .. => "obtUnlocked" | .obtRelock .. => "obtRelock" | .obtClear .. => "obtClear"
+  | .obtAfter .. => "obtAfter" | .obtUnlocked .. => "obtUnlocked" | .obtRelock .. => "obtRelock"
+  | .obtAfter2 .. => "obtAfter2" | .obtUnlocked2 .. => "obtUnlocked2" | .obtRelock2 .. => "obtRelock2" | .obtClear .. => "obtClear"
   | .obtRelease .. => "obtRelease" | .obtWantLock _ => "obtWantLock" | .obtDone .. => "obtDone"
 
 structure DState where
   st : State
   steps : Nat
+  sanMap : List (Nat × Nat)            -- the sanitizer on keys as a finite map (identity elsewhere)
 
-def init : DState := { st := initRoot, steps := 0 }
+/-- the sanitizer denoted by a finite map -/
+def sanOf (m : List (Nat × Nat)) (k : Nat) : Nat := (m.lookup k).getD k
+
+/-- `sanOf m` is idempotent iff every value of the map is a fixed point -/
+def sanIdempotent (m : List (Nat × Nat)) : Bool := m.all fun (_, v) => sanOf m v == v
+
+def init : DState := { st := initRoot id, steps := 0, sanMap := [] }
+
+def parseSanPair (s : String) : Option (Nat × Nat) :=
+  match s.splitOn ":" with
+  | [a, b] => match a.toNat?, b.toNat? with
+    | some a, some b => some (a, b)
+    | _, _ => none
+  | _ => none
+
+def parseSan (s : String) : Option (List (Nat × Nat)) :=
+  if s == "-" then some [] else (s.splitOn ",").mapM parseSanPair
 
 def apply (d : DState) (e : Ev) : DState × String :=
-  match step d.st e with
-  | some s' => ({ st := s', steps := d.steps + 1 }, "ok")
+  match step (sanOf d.sanMap) d.st e with
+  | some s' => ({ d with st := s', steps := d.steps + 1 }, "ok")
   | none => (d, s!"reject not-enabled pcs={d.st.pcs.map fun (t, p) => (t, pcName p)} readers={d.st.readers}")
 
 /-- can thread `t` run to its next schedule point without blocking in the runtime? -/
-def canRun (s : State) (t : Nat) (p : Pc) : Bool :=
+def canRun (san : Nat → Nat) (s : State) (t : Nat) (p : Pc) : Bool :=
   match p with
   | .idle => false
   | .passUnlocked _ _ sid => (s.readers.filter (· != t)).isEmpty && !visiting s sid
-  | .obtUnlocked _ sid => (s.readers.filter (· != t)).isEmpty && !visiting s sid
+  | .obtUnlocked _ _ => (s.readers.filter (· != t)).isEmpty
+  | .obtUnlocked2 _ sid => (s.readers.filter (· != t)).isEmpty && !visiting s sid
   | .passClear _ _ sid => !visiting s sid
   | .obtClear _ sid => !visiting s sid
-  | .obtWantLock i =>
+  | .obtWantLock r =>
     (s.readers.filter (· != t)).isEmpty &&
-      (match lookup s i with
+      (match lookup s (san r) with
        | some sid => match scopeOf s sid with
          | some x => !x.closed || !visiting s sid
          | none => true
@@ -73,8 +95,15 @@ def handle (d : DState) (toks : List String) : DState × String :=
     | some t => apply d (.passEndHint t) | none => (d, "bad-op parse")
   | ["ev", "step", t, c] => match t.toNat?, c.toNat? with
     | some t, some c => apply d (.step t c) | _, _ => (d, "bad-op parse")
-  | ["ev", "obtain", t, i] => match t.toNat?, i.toNat? with
-    | some t, some i => apply d (.obtain t i) | _, _ => (d, "bad-op parse")
+  | ["san", m] =>
+    if d.steps != 0 then (d, "reject not-at-start") else
+    match parseSan m with
+    | some m =>
+      if sanIdempotent m then ({ st := initRoot (sanOf m), steps := 0, sanMap := m }, "ok")
+      else (d, "reject not-idempotent")
+    | none => (d, "bad-op parse")
+  | ["ev", "obtain", t, r] => match t.toNat?, r.toNat? with
+    | some t, some r => apply d (.obtain t r) | _, _ => (d, "bad-op parse")
   | ["ev", "record", sid] => match sid.toNat? with
     | some sid => apply d (.record sid) | none => (d, "bad-op parse")
   | ["ev", "close", sid] => match sid.toNat? with
@@ -91,7 +120,7 @@ def handle (d : DState) (toks : List String) : DState × String :=
       | p => (d, s!"reject at={pcName p}")
     | none => (d, "bad-op parse")
   | ["enabled"] =>
-    let ts := d.st.pcs.filterMap fun (t, p) => if canRun d.st t p then some (toString t) else none
+    let ts := d.st.pcs.filterMap fun (t, p) => if canRun (sanOf d.sanMap) d.st t p then some (toString t) else none
     (d, "enabled " ++ ",".intercalate ts)
   | ["final", n] => match n.toNat? with
     | some n => (d, finalCheck d.st n) | none => (d, "bad-op parse")
